@@ -29,9 +29,9 @@ func num(s string, prefix string) int {
 	}
 	return 99
 }
-func gid(g string) string  { return u.Pos(num(g, "g")) }
-func nid(n string) string  { return u.Pos(num(n, "n")) }
-func cid(c string) string  { return u.Pos(num(c, "c")) }
+func gid(g string) string { return u.Pos(num(g, "g")) }
+func nid(n string) string { return u.Pos(num(n, "n")) }
+func cid(c string) string { return u.Pos(num(c, "c")) }
 func idxTerm(s string) int { // device index string -> positive
 	if v, err := strconv.Atoi(s); err == nil && v >= 0 {
 		return v + 1
@@ -115,14 +115,14 @@ func stepTerm(st *Step) string {
 	return u.Pair(step, obs)
 }
 
-func caseTerm(c *Case, smoke [][]PodObs, raceFree bool) string {
+func caseTerm(c *Case, smoke [][]PodObs, raceFree bool, race string) string {
 	pods := u.ListOf(c.Pods, func(p string) string { return u.Pair(cid(p), mfTerm(c.MF[p])) })
 	steps := []string{}
 	for _, st := range c.Steps {
 		steps = append(steps, stepTerm(st))
 	}
 	sm := u.ListOf(smoke, func(s []PodObs) string { return u.ListOf(s, podTerm) })
-	return u.App("mkCase", pods, u.List(steps), sm, u.Bool(raceFree))
+	return u.App("mkCase", pods, u.List(steps), sm, u.Bool(raceFree), u.Opt(race != "", race))
 }
 
 func (c *Case) label() string {
@@ -182,6 +182,11 @@ func execute(ctl *controllersEnv, c *Case) {
 	srv := newAPIServer(ctl.scheme, objs...)
 	proc := &binderProc{srv: srv, ctl: ctl}
 	proc.start()
+	runHistory(proc, c)
+}
+
+// runHistory runs the steps one after the other; false if a step hung.
+func runHistory(proc *binderProc, c *Case) bool {
 	for i, st := range c.Steps {
 		done := make(chan int, 1)
 		go func() { done <- proc.runStep(st) }()
@@ -194,10 +199,11 @@ func execute(ctl *controllersEnv, c *Case) {
 			st.Store = nil
 			c.Steps = c.Steps[:i+1]
 			c.Note += " HANG at step " + strconv.Itoa(i)
-			return
+			return false
 		}
-		st.Store = srv.snapshot(c.MF)
+		st.Store = proc.srv.snapshot(c.MF)
 	}
+	return true
 }
 
 // Run is the driver entry point.
@@ -210,7 +216,7 @@ func Run(dir string, seed uint64, n int, tier string) error {
 		return err
 	}
 	out := u.NewOut(dir, "C17", "KaiV.Run.C17", "case", 50)
-	out.Stats["rule"] = "non-trivial: the history contains a bind that created a reservation pod and a later deletion of a reservation pod by the binder; fingerprint = event kinds + outcomes + calls per step"
+	out.Flags = true
 	rng := u.NewRng(seed)
 
 	cases := corpus()
@@ -226,10 +232,15 @@ func Run(dir string, seed uint64, n int, tier string) error {
 			dump(c)
 		}
 		recordStats(out, c)
-		out.Add(caseTerm(c, nil, true), c.label())
+		out.Add(caseTerm(c, nil, true, ""), c.label())
 		if i < 3 {
 			out.Sample(map[string]any{"label": c.label()})
 		}
+	}
+
+	// controlled interleavings of two operations (linearizability against the sequential model)
+	if err := raceStream(out, rng, n, tier); err != nil {
+		return err
 	}
 
 	// validation only: real concurrent reconciles on shared groups
@@ -255,9 +266,105 @@ func Run(dir string, seed uint64, n int, tier string) error {
 	out.Stats["concurrency_smoke"] = map[string]any{"runs": runs, "goroutines_per_run": smokeGoroutines,
 		"race_detector": raceNote, "what": "validation, not proof: real goroutines run ReserveGpuDevice / SyncForGpuGroup / SyncForNode on the same groups; the final store must satisfy clauses 2 and 3"}
 	sc := &Case{Note: "concurrency-smoke"}
-	out.Add(caseTerm(sc, stores, raceFree), "concurrency-smoke runs="+strconv.Itoa(runs)+" "+raceNote)
+	out.Add(caseTerm(sc, stores, raceFree, ""), "concurrency-smoke runs="+strconv.Itoa(runs)+" "+raceNote)
 	out.Count("kind:concurrency-smoke")
 	return out.Flush()
+}
+
+// raceStream: the fixed scenarios, then generated ones (one per 6 sequential
+// histories), every schedule of each.
+func raceStream(out *u.Out, rng *u.Rng, n int, tier string) error {
+	scs := raceCorpus()
+	want := n / 6
+	if os.Getenv("C17_RACES") != "" {
+		want, _ = strconv.Atoi(os.Getenv("C17_RACES"))
+	}
+	for i := 0; len(scs) < want; i++ {
+		scs = append(scs, genRaceScenario(rng.Fork(uint64(2_000_000+i))))
+	}
+	if n > 0 && len(scs) > want && want > 0 {
+		scs = scs[:want]
+	}
+	t0 := time.Now()
+	cases, how, err := runRaces(scs, 8)
+	if err != nil {
+		return err
+	}
+	st := map[string]int{}
+	for i, rc := range cases {
+		if os.Getenv("C17_DUMP") != "" {
+			dumpRace(rc)
+		}
+		race := ""
+		if rc.Obs != nil {
+			race = raceTerm(rc)
+		}
+		out.Add(caseTerm(rc.Case, nil, true, race), rc.label())
+		out.Count("kind:race-schedule")
+		st["schedules"]++
+		if rc.Sc.Same {
+			st["schedules on a common group"]++
+		} else {
+			st["control schedules (different groups)"]++
+		}
+		o := rc.Obs
+		if o == nil || o.Hang {
+			st["hang"]++
+			continue
+		}
+		for _, op := range rc.Sc.Ops {
+			out.Count("race-op:" + op.Ev.Kind)
+		}
+		switch {
+		case !o.Parked:
+			st["sequential controls (k = number of calls)"]++
+		case o.Blocked:
+			st["injected operation blocked on the lock"]++
+			if o.FBlocked {
+				st["... and the parked one then waited for it"]++
+			}
+		default:
+			st["injected operation ran to completion while the other was parked"]++
+		}
+		if o.Parked {
+			switch {
+			case rc.SeqAB && rc.SeqBA:
+				st["equal to the real sequential runs A;B and B;A (they commute)"]++
+			case rc.SeqAB:
+				st["equal to the real sequential run A;B only"]++
+			case rc.SeqBA:
+				st["equal to the real sequential run B;A only"]++
+			default:
+				st["equal to neither real sequential run"]++
+			}
+			out.NonTrivial(fmt.Sprintf("race:%s|%s|%d@%d/%s|b%v|%d%d", rc.Sc.Ops[0].Ev.Kind, rc.Sc.Ops[1].Ev.Kind, o.First, o.K, o.ParkKind, o.Blocked, o.Out[0], o.Out[1]))
+		}
+		if i < 2 {
+			out.Sample(map[string]any{"label": rc.label()})
+		}
+	}
+	st["scenarios"] = len(scs)
+	st["blocked established by goroutine dump (group mutex Lock on the stack)"] = how.stack
+	st["blocked established by timeout only"] = how.timeout
+	out.Stats["race_stream"] = map[string]any{"counts": st, "wall_seconds": time.Since(t0).Seconds(), "workers": 8,
+		"what": "two operations of the real code on one API server, one parked before its k-th API call (every k), the other injected; oracle: outcomes and final store equal Model/Reservation.v's A;B or B;A (flags 101/102/103 in the evidence count which), monitor on the real final store"}
+	out.Stats["rule"] = fmt.Sprintf("non-trivial (histories): the history contains a bind that created a reservation pod and a later deletion of a reservation pod by the binder; fingerprint = event kinds + outcomes + calls per step. "+
+		"non-trivial (races): the parked operation reached its k-th call; fingerprint = operation kinds + schedule + blocked + outcomes. "+
+		"Input distribution of this run: %d sequential histories (%d fixed, the rest random: 2-4 pods, 3-15 events, 35%% of the steps with API faults / crash points); %d race scenarios (%d fixed preconditions: stale reservation pod, brand-new group, group with other live consumers, multi-fraction, failing label patch, controls on different groups; the rest random: fault-free history of 0-6 events then two operations out of reserve / bind / syncgroup / nodesync / phase / delete / brdelete, 80%% on a common group) giving %d schedules (each operation parked before each of its API calls, plus the sequential controls): "+
+		"%d with the injected operation blocked on the group lock, %d with it running to completion, %d sequential controls; against the REAL sequential runs %d equal A;B only, %d equal B;A only, %d equal both, %d neither (multi-section operations interleave at section granularity); the model-side counts (against Model/Reservation.v) are the observation flags in the evidence: 101 A;B only / 102 B;A only / 103 both / 104 neither / 105 both operations single sections, i.e. linearizability required",
+		n, len(corpus()), len(scs), len(raceCorpus()), st["schedules"], st["injected operation blocked on the lock"], st["injected operation ran to completion while the other was parked"], st["sequential controls (k = number of calls)"],
+		st["equal to the real sequential run A;B only"], st["equal to the real sequential run B;A only"], st["equal to the real sequential runs A;B and B;A (they commute)"], st["equal to neither real sequential run"])
+	return nil
+}
+
+func dumpRace(rc *RaceCase) {
+	fmt.Fprintln(os.Stderr, rc.label())
+	if o := rc.Obs; o != nil {
+		fmt.Fprintf(os.Stderr, "   trace=%v realseq AB=%v BA=%v\n", o.Log, rc.SeqAB, rc.SeqBA)
+		for _, p := range o.Store {
+			fmt.Fprintf(os.Stderr, "      %+v\n", p)
+		}
+	}
 }
 
 func recordStats(out *u.Out, c *Case) {
@@ -266,7 +373,7 @@ func recordStats(out *u.Out, c *Case) {
 	prevRes := 0
 	for _, st := range c.Steps {
 		out.Count("event:" + st.Ev.Kind)
-		out.Count("outcome:" + [...]string{"ok", "error", "crash"}[st.Out])
+		out.Count("outcome:" + [...]string{"ok", "error", "crash", "hang"}[st.Out])
 		if !st.Fl.none() {
 			out.Count("steps:with-faults")
 		}
